@@ -2824,7 +2824,9 @@ class VM:
             # Use synchronous execution (like _call_callback)
             return self._call_callback(getter, [], this_val)
         elif callable(getter):
-            return getter()
+            # A built-in used as a getter: its missing result reads as undefined
+            result = getter()
+            return UNDEFINED if result is None else result
         return UNDEFINED
 
     def _invoke_setter(self, setter: Any, this_val: JSValue, value: JSValue) -> None:
